@@ -78,7 +78,13 @@ func (w *Writer) Write(data []byte) (n int, err error) {
 		return n, w.err
 	}
 	if w.w != nil {
-		return w.w.Write(data)
+		// delegated to compress/flate: keep the first error here, its own
+		// Writer accepts a Write again after a failed Close
+		n, err = w.w.Write(data)
+		if err != nil {
+			w.err = err
+		}
+		return n, err
 	}
 	n = len(data)
 	var num int
@@ -111,7 +117,8 @@ func (w *Writer) Flush() (err error) {
 		return w.err
 	}
 	if w.w != nil {
-		return w.w.Flush()
+		w.err = w.w.Flush()
+		return w.err
 	}
 	w.err = w.lc.Flush()
 	return w.err
@@ -129,9 +136,10 @@ func (w *Writer) Close() (err error) {
 		return w.err
 	}
 	if w.w != nil {
-		return w.w.Close()
+		w.err = w.w.Close()
+	} else {
+		w.err = w.lc.Close()
 	}
-	w.err = w.lc.Close()
 	if w.err != nil {
 		return w.err
 	}
